@@ -284,6 +284,22 @@ def apply_event(tt_mod, objs, ev):
         return []
     if op == 'TT2QTT':
         return res_or_self(A.tt2qtt([list(x) for x in ev['rds']], [list(x) for x in ev['cds']]))
+    if op == 'BuildCore':
+        def blk(b, vec):
+            if b['z']:
+                return 0
+            m = carray(b['m'])
+            if np.all(m.imag == 0):
+                m = m.real.copy()
+            return m
+        lst = [[blk(b, False) for b in row] for row in ev['list']]
+        if ev['form'] == 'vector':
+            lst = [row[0] for row in lst]
+        core = tt_mod.build_core(lst, iscomplex=ev['iscomplex']) if ev['iscomplex'] else \
+            (tt_mod.build_core(lst) if len(ev['list']) % 2 else tt_mod.build_core(lst, iscomplex=False))
+        if not isinstance(core, np.ndarray) or core.ndim != 4:
+            raise Mismatch('type', 'build_core did not return a 4-way array')
+        return [TT([core])]
     if op == 'QTT2TT':
         return res_or_self(A.qtt2tt(list(ev['nums'])))
     raise KeyError(op)
